@@ -29,7 +29,8 @@ func methodsFor(n int) [][]string {
 	}
 	return [][]string{{"size"}, {"iw"}, {"ra", "0", fmt.Sprint(l)}, {"ra", fmt.Sprint(off), fmt.Sprint(l)},
 		{"proto", fmt.Sprint(bigMax)}, {"bs", fmt.Sprint(bigMax)}, {"bs", fmt.Sprint(small)},
-		{"cr", "0", "all"}, {"cr", fmt.Sprint(off), "all"}, {"cr", "0", "close"}, {"cr", "0", "one"}, {"rdr", "all"}, {"rdr", "close"}, {"discard"}}
+		{"cr", "0", "all"}, {"cr", fmt.Sprint(off), "all"}, {"cr", "0", "close"}, {"cr", "0", "one"}, {"rdr", "all"}, {"rdr", "close"}, {"discard"},
+		{"iwf", "0"}, {"iwf", "1"}, {"iwf", "2"}}
 }
 
 func progScript(cfg string, toks []string, method []string) []string {
